@@ -15,6 +15,25 @@ pub fn exec(func: &str, a: &mut Args) -> String {
             match crate::p2::shape::ConvexPolygon::from_convex_hull(&pts) { None => "none".into(),
                 Some(p) => format!("{} {} {} {}", p.points().len(), p.points().iter().map(d2::fp).collect::<Vec<_>>().join(" "),
                     p.normals().len(), p.normals().iter().map(|n| d2::fv(&n.into_inner())).collect::<Vec<_>>().join(" ")) } }
+        // the modelled 3-D quickhull: the eigen-decomposition of the covariance matrix of the normalised cloud (nalgebra's
+        // `symmetric_eigen`, not transliterated) is an observed input of the model: `<evec columns, evals> ;; <output>`.
+        "hull3m" => { let n = a.u(); let pts: Vec<_> = (0..n).map(|_| d3::p(a)).collect();
+            if pts.len() < 3 { return "lowdim".into(); }
+            let mut np = pts.clone();
+            { // convex_hull_utils::normalize (pub(crate)): same public primitives, same expressions
+                let aabb = crate::p3::bounding_volume::details::local_point_cloud_aabb(&*np);
+                let diag = d3::na::distance(&aabb.mins, &aabb.maxs);
+                let center = aabb.center();
+                for c in np.iter_mut() { *c = (*c + (-center.coords)) / diag; } }
+            let eig = crate::p3::utils::cov(&np).symmetric_eigen();
+            let (evec, eval) = (eig.eigenvectors, eig.eigenvalues);
+            let obs = format!("{} {} {} {} {} {}", d3::hv(&evec.column(0).into_owned()), d3::hv(&evec.column(1).into_owned()), d3::hv(&evec.column(2).into_owned()),
+                hx(eval[0]), hx(eval[1]), hx(eval[2]));
+            let out = { match try_convex_hull(&pts) {
+                Err(e) => format!("err {:?}", e).replace(' ', "_").replacen("err_", "err ", 1),
+                Ok((v, t)) => format!("{} {} {} {}", v.len(), v.iter().map(d3::fp).collect::<Vec<_>>().join(" "), t.len(),
+                    t.iter().map(|t| format!("{} {} {}", t[0], t[1], t[2])).collect::<Vec<_>>().join(" ")) } };
+            format!("{} ;; {}", obs, out) }
         "hull3" => { let n = a.u(); let pts: Vec<_> = (0..n).map(|_| d3::p(a)).collect();
             match try_convex_hull(&pts) {
                 Err(e) => format!("err {:?}", e).replace(' ', "_").replacen("err_", "err ", 1),
@@ -256,6 +275,62 @@ fn explicit_mesh(r: &mut Rng) -> (Vec<P3>, Vec<[u32; 3]>) {
     (pts, tris)
 }
 
+/// cube corners + a (k+1)x(k+1) lattice on one or all faces, pushed outwards by 0, d, 2d or -d with d of the order of an ulp
+/// (or a quantised dome): many nearly coplanar hull vertices in a full-dimensional cloud -- the family on which the
+/// silhouette occasionally visits a vertex twice (`fix_silhouette_topology`)
+fn bumpy_cube(r: &mut Rng) -> Vec<P3> {
+    let d = *r.pick(&[1.0e-16, 2.0e-16, 4.0e-16, 1.0e-15, 3.0e-15, 1.0e-14, 1.0e-13, 1.0e-10]);
+    let k = 2 + r.below(7) as usize;
+    let mut pts: Vec<P3> = Vec::new();
+    for sx in [-1.0, 1.0] { for sy in [-1.0, 1.0] { for sz in [-1.0, 1.0] { pts.push(P3::new(sx, sy, sz)); } } }
+    let kind = r.below(3);
+    let faces = if kind == 1 { 6 } else { 1 };
+    for f in 0..faces { let (ax, sg) = (if faces == 1 { 2 } else { f / 2 }, if faces == 1 || f % 2 == 0 { 1.0 } else { -1.0 });
+        for i in 0..=k { for j in 0..=k {
+            if kind == 1 && r.bool() { continue; }
+            let (u, v) = (-1.0 + 2.0 * i as f64 / k as f64, -1.0 + 2.0 * j as f64 / k as f64);
+            let h = if kind == 2 { 1.0 + d * (4.0 * (2.0 - u * u - v * v)).round() } else { 1.0 + d * *r.pick(&[0.0, 1.0, 2.0, -1.0]) };
+            let mut c = [0.0; 3]; c[ax] = sg * h; c[(ax + 1) % 3] = u; c[(ax + 2) % 3] = v;
+            pts.push(P3::new(c[0], c[1], c[2])); } } }
+    shuffle(r, &mut pts);
+    pts
+}
+
+/// >= 100 points on the faces of a cube (or of a prism over a regular k-gon) in GENERAL orientation: large nearly coplanar subsets
+/// whose coplanarity is broken by the rounding of the rotation -- the family on which the horizon pinches (`needs_fixing`)
+fn rotated_face_cloud(r: &mut Rng) -> Vec<P3> {
+    let n = 100 + r.below(60) as usize;
+    let mut pts: Vec<P3> = Vec::new();
+    if r.below(3) != 0 {
+        for _ in 0..n { let ax = r.below(3) as usize; let sg = if r.bool() { 1.0 } else { -1.0 };
+            let mut c = [r.uniform(-1.0, 1.0), r.uniform(-1.0, 1.0), r.uniform(-1.0, 1.0)]; c[ax] = sg; pts.push(P3::new(c[0], c[1], c[2])); }
+    } else {
+        let k = 3 + r.below(6) as usize;
+        for _ in 0..n { match r.below(3) {
+            0 | 1 => { let y = if r.bool() { 0.0 } else { 1.0 }; let i = r.below(k as u64) as usize; let (t, u) = (r.uniform(0.0, 1.0), r.uniform(0.0, 1.0));
+                let a0 = 2.0 * std::f64::consts::PI * i as f64 / k as f64; let a1 = 2.0 * std::f64::consts::PI * (i + 1) as f64 / k as f64;
+                let (w0, w1) = (t * u, t * (1.0 - u)); pts.push(P3::new(w0 * a0.cos() + w1 * a1.cos(), y, w0 * a0.sin() + w1 * a1.sin())); }
+            _ => { let i = r.below(k as u64) as usize; let t = r.uniform(0.0, 1.0);
+                let a0 = 2.0 * std::f64::consts::PI * i as f64 / k as f64; let a1 = 2.0 * std::f64::consts::PI * (i + 1) as f64 / k as f64;
+                pts.push(P3::new((1.0 - t) * a0.cos() + t * a1.cos(), r.uniform(0.0, 1.0), (1.0 - t) * a0.sin() + t * a1.sin())); } } }
+    }
+    let iso = d3::gen_iso(r, false, 3.0);
+    for q in pts.iter_mut() { *q = iso * *q; }
+    pts
+}
+
+/// multi-scale cloud: ~100 points in a unit cube plus a small cluster (points on a sphere of radius 1e-3 .. 1e-5) outside it:
+/// genuine hull facets 3 to 5 orders of magnitude smaller than the cloud
+fn multiscale_cloud(r: &mut Rng) -> Vec<P3> {
+    let mut pts: Vec<P3> = (0..(60 + r.below(60))).map(|_| P3::new(r.uniform(0.0, 1.0), r.uniform(0.0, 1.0), r.uniform(0.0, 1.0))).collect();
+    let rad = r.logu(1.0e-5, 1.0e-3);
+    let c = d3::Vector::new(1.0 + r.uniform(0.05, 0.5), r.uniform(0.0, 1.0), r.uniform(0.0, 1.0));
+    for _ in 0..(20 + r.below(30)) { let v = d3::gen_v(r, false, 1.0); let n = v.norm().max(1e-3); pts.push(P3::from(c + v / n * rad)); }
+    shuffle(r, &mut pts);
+    if r.bool() { let iso = d3::gen_iso(r, false, 3.0); for q in pts.iter_mut() { *q = iso * *q; } }
+    pts
+}
+
 pub fn gen(r: &mut Rng, thorough: bool) -> Vec<(String, String)> {
     let n = if thorough { 900 } else { 300 };
     let mut v = Vec::new();
@@ -298,6 +373,36 @@ pub fn gen(r: &mut Rng, thorough: bool) -> Vec<(String, String)> {
         // (d) from_convex_mesh on explicit meshes
         let (mp, mt) = explicit_mesh(r);
         v.push(("polymesh".into(), format!("{} {} {}", fmt3(&mp), mt.len(), mt.iter().map(|t| format!("{} {} {}", t[0], t[1], t[2])).collect::<Vec<_>>().join(" "))));
+    }
+    // fu4: the modelled 3-D quickhull, index-exact against the real code (appended so that the stream above is unchanged)
+    let m3 = if thorough { 1200 } else { 400 };
+    for it in 0..m3 {
+        let base = match it % 10 {
+            8 => bumpy_cube(r),                                                                    // near-coplanar SUBSETS (bumps of a few ulps on the faces of a cube)
+            9 => { let mut p = bumpy_cube(r); let lt = r.bool(); let iso = d3::gen_iso(r, lt, 3.0); for q in p.iter_mut() { *q = iso * *q; } p }
+            0 | 1 => { let np3 = 4 + r.below(60) as usize; cloud3(r, 2, np3) }                    // generic random
+            2 => { let np3 = 4 + r.below(if it % 16 == 2 { 400 } else { 80 }) as usize; cloud3(r, 1, np3) }   // on a sphere
+            3 => { let k3 = r.below(6); let np3 = 4 + r.below(60) as usize; cloud3(r, k3, np3) }     // lattices, voxel corners, multi-scale
+            4 => solid3(r),                                                                        // pyramids / prisms: coplanar hull vertices
+            5 => merged_solid(r),                                                                  // boxes, lattice blocks, duplicates
+            6 => { let np3 = 4 + r.below(30) as usize; let mut p = cloud3(r, 2, np3); let d = p.clone(); p.extend(d); shuffle(r, &mut p); p }  // every point twice
+            _ => { // nearly flat cloud (thin slab): the silhouette repair / undecidable paths
+                let np3 = 5 + r.below(40) as usize; let th = *r.pick(&[1.0e-3, 1.0e-5, 1.0e-2]);
+                (0..np3).map(|_| P3::new(r.uniform(-1.0, 1.0), r.uniform(-1.0, 1.0), r.uniform(-1.0, 1.0) * th)).collect() }
+        };
+        let cloud = if it % 3 == 0 { base } else { let exact = r.bool(); similarity(r, &base, exact) };
+        v.push(("hull3m".into(), fmt3(&cloud)));
+    }
+    // fu4: large coplanar subsets in general orientation (pinched horizons) and multi-scale clouds (small genuine facets):
+    // both through the certificate oracle (`hull3`) and the index-exact model (`hull3m`)
+    let m4 = if thorough { 360 } else { 120 };
+    for it in 0..m4 {
+        // (rotated face clouds go through `hull3m` only: its oracle judges closedness / orientation / Euler / provenance; their
+        //  enclosure is the known finding [coplanar-subset-cloud], whose cap this family would exhaust)
+        let ms = it % 3 == 2;
+        let cloud = if ms { multiscale_cloud(r) } else { rotated_face_cloud(r) };
+        if ms { v.push(("hull3".into(), fmt3(&cloud))); }
+        v.push(("hull3m".into(), fmt3(&cloud)));
     }
     v
 }
